@@ -38,10 +38,10 @@ let election n limit evs =
           | [c; t; m] -> (nat_of_int (int_of_string c), nat_of_int (int_of_string t), nat_of_int (int_of_string m))
           | _ -> failwith "bad event" in
         if ev.[0] = 'R' then begin
-          (* R<i>:<kind>:<session>:<obo>  a client request dispatched on node i (ElectionC17b) *)
+          (* R<i>:<kind>:<session>:<obo>:<shape>  a client request dispatched on node i (ElectionC17b) *)
           let open ElectionC17b in
           (match String.split_on_char ':' arg with
-           | [i; kind; sess; obo] ->
+           | [i; kind; sess; obo; _] ->
              let k = (match kind with
                  | "pub" -> Some KPubD | "sub" -> Some KSubD | "leave" -> Some KLeaveD | "hi" -> Some KHiD
                  | "login" -> Some KLoginD | "get" -> Some KGetD | "set" -> Some KSetD | "del" -> Some KDelD
